@@ -8,6 +8,7 @@
    guarantee (u64 addresses, u32 sizes/depths) plus "fewer than 2^32-1 INLINE ranges per FUNC". *)
 From Coq Require Import Lia.
 From RM Require Import C08.Model C08.Proofs C11.Model C11.Proofs1 C11.Proofs2 C11.Proofs3 C11.Proofs4 C11.Proofs5 C11.Proofs6.
+From RM Require C09.Model C09.Grammar C11.Text.
 Open Scope Z_scope.
 
 (* Parsing and symbolication never panic (overflow in `address + module.base_address()`,
@@ -179,6 +180,28 @@ Proof.
 Qed.
 Print Assumptions c11_lookups_linear.
 
+(* From text (C09's byte-level parser model: [recog_pst] per line, [finish]).  For the lines of
+   any symbol text the recogniser accepts and any name map injective on the text's FUNC names:
+   the FUNC table of SymbolParser::finish — ranges, Functions, their line tables and sorted
+   inlinee vectors — is, name for name, the FUNC table of C11's [build_symtab] over the FUNC
+   blocks collected from the text, so the FUNC lookup of fill_symbol on the parsed text returns a
+   FUNC block of the text covering the address, finished as in C11 (to which c11_line_sound,
+   c11_inline_chain, c11_lookups_linear apply).  _partial: the PUBLIC list, the STACK WIN tables
+   and the FILE / INLINE_ORIGIN maps of [finish] are tied to C11's tables by the correspondence
+   runs of C09 and C11 only; [wf_text_funcs] (the integer ranges hex_str::<u64>, hex_str::<u32>
+   and decimal_u32 guarantee) is a hypothesis, not derived from the recogniser. *)
+Theorem c11_from_text_partial : forall nm (lines : list Grammar.rle) q t,
+  RM.C09.Model.fold_recog Grammar.rle Grammar.pst Grammar.recog_pst Grammar.lineno_pst Grammar.init_pst lines = inl q ->
+  Grammar.finish q = Ret t -> Text.wf_text_funcs nm q -> Text.names_injective nm q ->
+  map (Text.GF nm) (Grammar.t_funcs t) =
+    into_rangemap_safe_p func_eqb (fin_list true (map (Text.raw_of_func nm) (Text.funcs_of_pst q))) /\
+  forall x sf, rm_get (Grammar.t_funcs t) x = Some sf ->
+    exists fr, In fr (Text.funcs_of_pst q) /\ func_covers (Text.raw_of_func nm fr) x = true /\
+               Text.func_of_sfunc nm sf = fin_func true (Text.raw_of_func nm fr) /\
+               0 <= Grammar.fr_addr fr <= x.
+Proof. exact Text.from_text_funcs. Qed.
+Print Assumptions c11_from_text_partial.
+
 Ltac wf_tac :=
   unfold wf_file, wf_fraw, wf_line, wf_inl, wf_pub, wf_win, u64, u32, two64, two32;
   repeat (first [apply Forall_nil | apply Forall_cons | split]); cbn; try lia.
@@ -238,3 +261,25 @@ Example c11_nonvacuous_run :
   symbolize Release nv_file 4096 (4096 + 104) = Ret (mk_out (Some (9, 4196, 4)) None []) /\
   symbolize Debug nv_file 4096 (4096 + 50) = Ret empty_out.
 Proof. repeat split; vm_compute; reflexivity. Qed.
+
+(* text: "FUNC 10 8 0 f" / "10 4 7 1" / "INLINE 0 3 1 2 10 4" / "FUNC m 20 8 0 g"; names by first byte *)
+Definition nv_text : list Grammar.rle :=
+  map (map (fun b => (b, 1)))
+      [[70;85;78;67;32;49;48;32;56;32;48;32;102];
+       [49;48;32;52;32;55;32;49];
+       [73;78;76;73;78;69;32;48;32;51;32;49;32;50;32;49;48;32;52];
+       [70;85;78;67;32;109;32;50;48;32;56;32;48;32;103]].
+Definition nv_nm (s : Grammar.rle) : Z := match s with (b, _) :: _ => b | [] => 0 end.
+Example c11_nonvacuous_from_text :
+  exists q t,
+    RM.C09.Model.fold_recog Grammar.rle Grammar.pst Grammar.recog_pst Grammar.lineno_pst Grammar.init_pst nv_text = inl q /\
+    Grammar.finish q = Ret t /\ Text.wf_text_funcs nv_nm q /\ Text.names_injective nv_nm q /\
+    map fst (Grammar.t_funcs t) = [(16, 23); (32, 39)] /\
+    option_map (fun sf => (Grammar.sf_lines sf, Grammar.sf_inls sf)) (rm_get (Grammar.t_funcs t) 17) =
+      Some ([((16, 19), mk_line 16 4 1 7)], [mk_inl 0 16 4 1 3 2]).
+Proof.
+  eexists. eexists. split; [vm_compute; reflexivity|]. split; [vm_compute; reflexivity|].
+  split; [|split; [|split; vm_compute; reflexivity]].
+  - unfold Text.wf_text_funcs. cbn. wf_tac.
+  - unfold Text.names_injective. cbn. intros a b [<-|[<-|[]]] [<-|[<-|[]]]; cbn; intros H; try reflexivity; discriminate.
+Qed.
